@@ -20,6 +20,11 @@ func init() {
 		Names: []string{"SET", "MSET", "GET", "MGET", "DEL", "INCR", "DECR", "INCRBY", "DECRBY", "INCRBYFLOAT", "APPEND",
 			"SETRANGE", "GETRANGE", "SUBSTR", "STRLEN", "RENAME", "GETDEL", "GETEX", "TYPE", "FLUSHDB"},
 		Ref: refString,
+		// plain decimal texts whose shortest float rendering uses an exponent: what was written must be read back byte for byte
+		ExtraCmd: func() []Action {
+			return []Action{cmd("SET", "s", "0.00001"), cmd("SET", "x", "1234567.5"), cmd("SET", "vs", "-98765432.125"), cmd("SET", "n", "100000000000000000000"),
+				cmd("MSET", "s", "0.000025", "x", "1234567.5"), cmd("APPEND", "x", "0.00001"), cmd("SET", "s", "1e5"), cmd("SET", "s", "12345678901234567890.5")}
+		},
 		Deep: []Action{cmd("GET", "s"), cmd("SET", "s", "w"), cmd("SET", "s", "5", "EX", "100"), cmd("APPEND", "s", "1"), cmd("INCR", "s"), cmd("INCRBYFLOAT", "s", "0.5"), cmd("GETDEL", "s"), cmd("RENAME", "s", "n"), cmd("RENAME", "n", "s"), cmd("GETEX", "s", "PERSIST"), cmd("SETRANGE", "s", "2", "zz"), cmd("MSET", "s", "1", "n", "2"), cmd("DEL", "s", "n"), cmd("STRLEN", "s"), cmd("TYPE", "s")},
 		Title: "refString (a Go map key -> byte string + deadline: SET with NX/XX/GET/EX/PX/EXAT/PXAT, plain SET and MSET clear the deadline, " +
 			"int64 and float counters starting from 0 that keep the deadline, APPEND/SETRANGE with zero padding, GETRANGE/SUBSTR with negative indices clamped, " +
